@@ -1234,9 +1234,10 @@ def render_map() -> str:
 
 OUT_DICTANY = os.path.join(os.path.dirname(OUT), "DictAnySrc.lean")
 DVARS = {"key_": "keyU", "validator": "validator", "key_required": "keyRequired", "success_dict": "successDict",
-         "errs": "errs", "success": "success", "new_val": "newVal", "result": "result"}
+         "errs": "errs", "success": "success", "new_val": "newVal", "result": "result",
+         "args": "args", "obj": "obj", "async_result": "asyncResult", "async_validator": "validator"}
 DSELF = {"_disallow_synchronous": "disallowSync", "__class__": "cls", "fail_on_unknown_keys": "failOnUnknownKeys",
-         "_keys_set": "keysSet", "_unknown_keys_err": "unknownKeysErr", "_fast_keys_sync": "fastKeysSync",
+         "_keys_set": "keysSet", "_key_set": "keysSet", "into": "into", "_unknown_keys_err": "unknownKeysErr", "_fast_keys_sync": "fastKeysSync",
          "_fast_keys_async": "fastKeysAsync", "validate_object": "validateObject",
          "validate_object_async": "validateObjectAsync"}
 DCTORS = {"TypeErr": ("mkTypeErr", 1), "KeyErrs": ("mkKeyErrs", 1), "Invalid": ("mkInvalid", 3),
@@ -1254,18 +1255,29 @@ class DTr:
                 return ".dictTy"
             if e.id == "missing_key_err":
                 return ".missingKeyErr"
+            if e.id == "nothing":
+                return ".nothing"
             if e.id in DVARS:
                 return f"(.var .{DVARS[e.id]})"
         if isinstance(e, ast.Constant) and isinstance(e.value, bool):
             return f"(.bool {'true' if e.value else 'false'})"
         if isinstance(e, ast.Dict) and not e.keys:
             return ".emptyDict"
+        if isinstance(e, ast.List) and not e.elts:
+            return ".emptyList"
         if isinstance(e, ast.Await):
             return f"(.await {self.exp(e.value)})"
         if isinstance(e, ast.Tuple) and len(e.elts) == 2:
             return f"(.pair {self.exp(e.elts[0])} {self.exp(e.elts[1])})"
         if isinstance(e, ast.BoolOp) and isinstance(e.op, ast.And) and len(e.values) == 2:
             return f"(.and {self.exp(e.values[0])} {self.exp(e.values[1])})"
+        if (isinstance(e, ast.Call) and isinstance(e.func, ast.Name) and e.func.id == "isinstance" and len(e.args) == 2
+                and not e.keywords and isinstance(e.args[1], ast.Name) and e.args[1].id == "dict"):
+            return f"(.isInstDict {self.exp(e.args[0])})"
+        if isinstance(e, ast.Call) and isinstance(e.func, ast.Name) and e.func.id == "MissingKeyErr" and not e.args and not e.keywords:
+            return ".mkMissingKeyErr"
+        if (isinstance(e, ast.Call) and not e.keywords and len(e.args) == 1 and isinstance(e.args[0], ast.Starred)):
+            return f"(.callStar {self.exp(e.func)} {self.exp(e.args[0].value)})"
         if isinstance(e, ast.NamedExpr) and isinstance(e.target, ast.Name) and e.target.id in DVARS:
             return f"(.walrus .{DVARS[e.target.id]} {self.exp(e.value)})"
         if isinstance(e, ast.UnaryOp) and isinstance(e.op, ast.Not):
@@ -1313,6 +1325,10 @@ class DTr:
         if isinstance(s, ast.Return) and s.value is not None:
             return f"(.ret {self.exp(s.value)})"
         if isinstance(s, ast.Expr) and isinstance(s.value, ast.Call):
+            c = s.value
+            if (isinstance(c.func, ast.Attribute) and c.func.attr == "append" and isinstance(c.func.value, ast.Name)
+                    and c.func.value.id in DVARS and len(c.args) == 1 and not c.keywords):
+                return f"(.append .{DVARS[c.func.value.id]} {self.exp(c.args[0])})"
             return f"(.expr {self.exp(s.value)})"
         return f"(.unsupported {lstr(ast.dump(s)[:160])})"
 
@@ -1333,7 +1349,24 @@ def render_dictany() -> str:
     m = _find_method("dictionary.py", "DictValidatorAny", "__init__")
     init = (" ; ".join(ast.unparse(b).replace("\n", " ") for b in m.body if not (isinstance(b, ast.Expr) and isinstance(b.value, ast.Constant)))
             if m is not None else "<not found>")
-    lines += [f"def dictAnyInit : String := {lstr(init)}", "", "end Koda.Src", ""]
+    lines += [f"def dictAnyInit : String := {lstr(init)}", ""]
+    # RecordValidator: the same language
+    for meth, name in (("_validate_to_tuple", "recordSync"), ("_validate_to_tuple_async", "recordAsync")):
+        m = _find_method("dictionary.py", "RecordValidator", meth)
+        ok = (m is not None and [a.arg for a in m.args.args] == ["self", "data"] and not m.decorator_list
+              and isinstance(m, ast.AsyncFunctionDef) == meth.endswith("_async"))
+        term = DTr().block(m.body) if ok else '[.unsupported "not found / signature"]'
+        lines += [f"def {name} : List DStmt :=", f"  {term}", ""]
+    # its `__init__` is overloaded: the implementation is the last definition; only its tail (after the parameters) matters
+    tree = ast.parse(open(os.path.join(PKG, "dictionary.py")).read())
+    rinit = "<not found>"
+    for node in tree.body:
+        if isinstance(node, ast.ClassDef) and node.name == "RecordValidator":
+            for item in node.body:
+                if isinstance(item, ast.FunctionDef) and item.name == "__init__" and not item.decorator_list:
+                    rinit = " ; ".join(ast.unparse(b).replace("\n", " ") for b in item.body
+                                       if not (isinstance(b, ast.Expr) and isinstance(b.value, ast.Constant)))
+    lines += [f"def recordInit : String := {lstr(rinit)}", "", "end Koda.Src", ""]
     return "\n".join(lines)
 
 
